@@ -331,6 +331,9 @@ def oracles (prev s : St) (impl : List (String × String)) (prevDials : Nat := 0
       (s.peers.filter fun p => p.extHS && p.extMeta && p.extSize ≠ 0 && p.extSize ≤ s.maxMeta && !(s.idls.any (·.k = p.k))).map
         fun p => s!"C13 idle-metadata-source peer={p.k}"
     else []
+  -- a reservation that is not given back starves later downloads of the session (C10: with the budget gone no
+  -- idle peer is ever given a request again): the same event read as C10
+  let c10 := c10 ++ (c17.map fun v => v.replace "C17 write-cache-reservations-unbalanced" "C10 write-cache-budget-not-returned")
   c01a ++ c01b ++ c01c ++ c06 ++ c04 ++ c10 ++ c17 ++ c19 ++ c05 ++ c13
 
 /-- C04: after the final phase (restart + honest seed answering every request) the torrent must be
